@@ -180,6 +180,19 @@ theorem c04_c3_sound (n : Nat) (ls : List (List String)) (r : List String) (h : 
 theorem c04_c3_order (n : Nat) (ls : List (List String)) (r : List String) (h : c3merge n ls = some r) :
     ∀ l ∈ ls, l.Sublist r := c3merge_order n ls r h
 
+/-- Single inheritance is the special case the C3 model must reduce to: `class U(B)` has the MRO
+    `U` followed by `B`'s MRO. -/
+theorem c04_c3_single (name b : String) (t : List String) (hnd : (b :: t).Nodup) :
+    linearize name [b :: t] = some (name :: b :: t) := by
+  unfold linearize
+  simp only [List.map_cons, List.map_nil, List.headD_cons, List.cons_append, List.nil_append]
+  rw [c3merge_dominant (b :: t) [[b]] _ hnd ?_ (by simp)]
+  · rfl
+  · intro l hl
+    simp only [List.mem_cons, List.not_mem_nil, or_false] at hl
+    subst hl
+    exact List.Sublist.cons_cons _ (List.nil_sublist _)
+
 /-- Whenever Python can create the wrapper class, the original class, GlomError, and every
     class the original class derives from are in its MRO: both `except GlomError` and
     `except <any base of the original>` catch its instances. -/
@@ -338,19 +351,18 @@ theorem c04_levels (E : EvalEnv) (hwf : WF E.F = true) (ls : List Level) (x : Sp
 /-- … and whatever gets through ALL of them is an instance of every class the original was an instance
     of, with the same args — unless a Coalesce level replaced it by its CoalesceError. -/
 theorem c04_levels_faithful (E : EvalEnv) (hwf : WF E.F = true) (hint : Good E.F (E.internal "CoalesceError"))
+    (hname : (E.internal "CoalesceError").cls.name = "CoalesceError")
     (ls : List Level) (x : Sp) (e out : ExcObj) (hg : Good E.F e)
     (hx : eval E x = .exc e) (h : eval E (plugLevels ls x) = .exc out) :
     ((∀ c, isInst e c = true → isInst out c = true) ∧ out.args = e.args) ∨
-    isInst out "CoalesceError" = true ∨ (E.internal "CoalesceError").cls.name ≠ "CoalesceError" := by
+    isInst out "CoalesceError" = true := by
   rw [c04_levels E hwf, hx] at h
   rcases travel_derives E (WF_parts hwf) hint ls e out hg h with hd | hd
   · exact Or.inl ⟨hd.sup hg, hd.args⟩
-  · by_cases hn : (E.internal "CoalesceError").cls.name = "CoalesceError"
-    · right; left
-      have hself := isInst_self (E.internal "CoalesceError")
-      rw [hn] at hself
-      exact hd.sup hint "CoalesceError" hself
-    · exact Or.inr (Or.inr hn)
+  · right
+    have hself := isInst_self (E.internal "CoalesceError")
+    rw [hname] at hself
+    exact hd.sup hint "CoalesceError" hself
 
 /-- One nested `glom()` call: its default is returned exactly for the errors its caller selected. -/
 theorem c04_nested_selective (E : EvalEnv) (hwf : WF E.F = true) (x : Sp) (s : Settings) (e : ExcObj)
